@@ -12,6 +12,7 @@ from __future__ import annotations
 import os
 import shutil
 import time
+from pathlib import Path
 
 from harness.adapters import fsisolation as ad
 from harness.core import Ctx, parallel_map
@@ -26,9 +27,20 @@ VERDICT = ("PreExistingPreserved", "CreatedGone")
 DRIFT = ("FsFollows", "CrFollows", "ResFollows")
 
 
+_PROC_DIR: dict[int, str] = {}
+
+
 def _job(item):
-    beh, root = item
-    return ad.replay(beh, root)
+    """Worker: every process works below its own directory (own TMPDIR for the isolation's private
+    temporary directory) so that processes do not contend on one parent directory."""
+    beh, base, i = item
+    pid = os.getpid()
+    d = _PROC_DIR.get(pid)
+    if d is None:
+        d = _PROC_DIR[pid] = os.path.join(base, f"p{pid}")
+        os.makedirs(d, exist_ok=True)
+        ad.setup(Path(d))
+    return ad.replay(beh, os.path.join(d, f"t{i}"))
 
 
 def _opword(e: dict) -> str:
@@ -150,14 +162,15 @@ def execute(ctx: Ctx, behs: list[dict]) -> list[dict]:
         else:
             base.mkdir(parents=True)
     try:
-        ad.setup(base)
-        items = [(b, str(base / f"t{i}")) for i, b in enumerate(behs)]
+        _PROC_DIR.clear()
+        items = [(b, str(base), i) for i, b in enumerate(behs)]
         traces = [ad.expand(t) for t in parallel_map(_job, items, chunksize=64)]
-        left = [x for x in os.listdir(base) if x != "tmp"]
-        if left:
-            raise RuntimeError(f"sandbox trees not removed: {left[:5]}")
-        if os.listdir(base / "tmp"):
-            raise RuntimeError("isolation left temporary directories behind")
+        for pd in os.listdir(base):
+            left = [x for x in os.listdir(base / pd) if x != "tmp"]
+            if left:
+                raise RuntimeError(f"sandbox trees not removed: {pd}/{left[:5]}")
+            if os.listdir(base / pd / "tmp"):
+                raise RuntimeError("isolation left temporary directories behind")
         ctx.notes["sandbox_backing"] = "tmpfs (/dev/shm) behind ctx.work/fs" if shm else "ctx.work/fs on disk"
         return traces
     finally:
